@@ -375,6 +375,14 @@ class _CB(flow.DefaultCB):
             v0 = s.get(e.id)
             if isinstance(v0, SV) and v0.kind == 'flag' and v0.text in ('True', 'False'):
                 return v0.text == 'True'
+            if isinstance(v0, SV) and v0.kind == 'flag' and v0.text != e.id and depth_ok(v0.text):
+                # a local holding a test (`skip = a and b`): the truth of the test it was assigned
+                try:
+                    t2 = ast.parse(v0.text, mode='eval').body
+                except SyntaxError:
+                    t2 = None
+                if t2 is not None and not (isinstance(t2, ast.Name) and t2.id == e.id):
+                    return self.truth(t2, s)
         if isinstance(e, ast.Compare) and len(e.ops) == 1:
             l, r = e.left, e.comparators[0]
             if isinstance(e.ops[0], (ast.Is, ast.IsNot)) and isinstance(r, ast.Constant) and r.value is None:
@@ -763,6 +771,10 @@ class _CB(flow.DefaultCB):
     def ev_call(self, e: ast.Call, s: St, quiet: bool) -> tuple[Any, St]:
         from kfv import tensor_ops
         return tensor_ops.call(self, e, s, quiet)
+
+
+def depth_ok(text: str) -> bool:
+    return len(text) < 400
 
 
 def _load(t: ast.AST) -> ast.AST:
